@@ -1401,17 +1401,9 @@ func SupportedTcbLevelsFromCollateral(quote any, options *Options) (pcs.TcbLevel
 
 	switch q := quote.(type) {
 	case *pb.QuoteV4:
-		var err error
 		foundTcbInfo, tcbErr := readTcbInfoTcbStatus(options.collateral.TdxTcbInfo.TcbInfo, q.GetTdQuoteBody(), options.pckCertExtensions)
-		if tcbErr != nil {
-			multierr.Combine(err, tcbErr)
-		}
-
 		foundQe, qeErr := readQeTcbStatus(options.collateral.QeIdentity.EnclaveIdentity.TcbLevels, q.GetSignedData().GetCertificationData().GetQeReportCertificationData().GetQeReport().GetIsvSvn())
-		if qeErr != nil {
-			multierr.Combine(err, qeErr)
-		}
-		return foundTcbInfo, foundQe, err
+		return foundTcbInfo, foundQe, multierr.Combine(tcbErr, qeErr)
 	default:
 		return pcs.TcbLevel{}, pcs.TcbLevel{}, fmt.Errorf("unsupported quote type: %T", quote)
 	}
